@@ -64,6 +64,19 @@ Theorem ids_are_1_to_N :
 Proof. exact photometry_ids. Qed.
 Print Assumptions ids_are_1_to_N.
 
+(* the pipeline entry: no id column given => ids 1..N in input order, rows in input order, the
+   group_id column is the one assigned, for every assignment [gids] of group ids *)
+Theorem rows_in_input_order_with_default_ids :
+  forall ny nx fy fx sc msk data errbad xyb fixed nextra fitter (gids : list Z) (ins : list srcin) r,
+  length gids = length ins ->
+  let srcs := mk_srcs (default_ids (length ins)) gids ins in
+  photometry ny nx fy fx sc msk data errbad xyb fixed nextra fitter srcs = r -> res_err r = None ->
+  map o_src (res_rows r) = srcs /\
+  map (fun row => s_id (o_src row)) (res_rows r) = default_ids (length ins) /\
+  map (fun row => s_gid (o_src row)) (res_rows r) = gids.
+Proof. exact default_ids_rows_in_input_order. Qed.
+Print Assumptions rows_in_input_order_with_default_ids.
+
 (* ---- one fitter call per distinct group id, in increasing group-id order; a call is given
         exactly the members of the group in input order ---- *)
 Theorem one_fit_per_group_in_group_id_order :
